@@ -1,9 +1,10 @@
 (* Extraction of M-REPO for the correspondence checks.  ExtrOcamlBasic only. *)
 From Coq Require Import NArith List.
-From XV Require Import Base.Amap Base.Bytes Repo.Model.
+From XV Require Import Base.Amap Base.Bytes Repo.Model Repo.Fix.
 Require Import ExtrOcamlBasic.
 Extraction Language OCaml.
 Separate Extraction
   N.add N.mul N.div_eucl N.eqb N.ltb N.of_nat
   Model.init_repo Model.do_item Model.run_items Model.ws_read Model.obj_read Model.resolve
+  Fix.do_item_x Fix.run_items_x Fix.as_is Fix.all_fixed
   Model.link_fuel Model.dget Model.iget Model.read_entry Model.cache_addr Model.digest_of Model.ws_exists Model.obj_exists.
